@@ -256,3 +256,22 @@ Theorem C15_vote_list_round_trip : forall l,
   Forall entry_wf l -> forall fuel, (length (ser_list l) <= fuel)%nat -> deser_list fuel (ser_list l) = l.
 Proof. exact vote_list_round_trip. Qed.
 Print Assumptions C15_vote_list_round_trip.
+
+(* ================================================================== BP election snapshots *)
+From Verif Require Import Gov.Election.
+
+(** After every history of connected blocks and reorganisations the producer list in office on the
+    running node (cached election snapshots) is the one a restarted node installs: the ranking of
+    the election reference block of the CURRENT branch. *)
+Theorem C15_office_all_histories : forall genesis ops n,
+  0 <= best n -> cache_ok n -> (forall o, In o ops -> match o with EReorg r => 0 <= r | _ => True end) ->
+  let n' := fold_left estep ops n in office genesis n' = office_restarted genesis n'.
+Proof. exact office_all_histories. Qed.
+Print Assumptions C15_office_all_histories.
+
+(** seeded/C15-r7 (AddSnapshot reuses a cached entry): refuted after a reorganisation below an
+    election block that was already connected. *)
+Theorem C15_cached_snapshot_reused_after_reorg_refuted :
+  exists ops, let n := fold_left eseeded ops e_start in office [9%nat] n <> office_restarted [9%nat] n.
+Proof. exact cached_snapshot_reused_after_reorg_refuted. Qed.
+Print Assumptions C15_cached_snapshot_reused_after_reorg_refuted.
